@@ -22,7 +22,8 @@ META = {
              'ole-volume sized arrays (> 2^25 voxels).'
              " Round 12: non-dyadic outside values (mean just beside a tie)."
              " Round 16: the result is read only after the same downscaler has processed another array of the same shape and type."
-             " Round 17: the downscaler under test is the second one made from one options dictionary object."),
+             " Round 17: the downscaler under test is the second one made from one options dictionary object."
+             " Round 19: differently configured downscalers created afterwards and kept alive."),
     "trusted_base": ["vlib/refs/downscale_ref.py, dtype_ref.py (Fractions)"],
     "assumptions": ["finite values; float32 results compared within 1 ulp"],
 }
@@ -96,9 +97,17 @@ def get_downscaler(case):
                 "data_type": case.get("dtype", "uint8"), "num_channels": 1,
                 "scales": []}
         get_downscaler("auto", info, opts)
-        return get_downscaler("auto", info, opts)
-    get_downscaler(case["method"], None, opts)
-    return get_downscaler(case["method"], None, opts)
+        made = get_downscaler("auto", info, opts)
+    else:
+        get_downscaler(case["method"], None, opts)
+        made = get_downscaler(case["method"], None, opts)
+    # ... and other downscalers, configured differently, are created after it
+    # and stay alive (one per dataset of a batch)
+    others = [get_downscaler("average", None, {"outside_value": 13.0}),
+              get_downscaler("average", None, {}),
+              get_downscaler("majority", None, {})]
+    made._kept_alive_beside = others
+    return made
 
 
 def f17(case):
